@@ -507,6 +507,7 @@ type CallRule struct {
 	Assume       []Clause // assumed facts about the call's results (listed as assumptions)
 	FrameNothing bool     // the (dynamic/uncontracted) callee is assumed to write no caller-visible location
 	Matched      int
+	Never        bool // `never [label]`: the rule is a prohibition (requires false); matching nothing is the passing state
 }
 
 type AssignTarget struct {
@@ -748,6 +749,18 @@ func parseContractFile(path, pkgPath string) (*SpecFile, error) {
 			} else {
 				return nil, fail(fmt.Errorf("requires outside func/lemma"))
 			}
+		case "never":
+			// inside a call/store rule: this call (store) must not occur in the function at all - an ownership / frame
+			// condition ("does not hand the buffer back to the pool", "never assigns the field directly")
+			if curCall == nil {
+				return nil, fail(fmt.Errorf("never outside call rule"))
+			}
+			c, err := mkClause(curCall.Label+".req", len(curCall.Requires)+1, strings.TrimSpace(rest+" false"))
+			if err != nil {
+				return nil, fail(err)
+			}
+			curCall.Requires = append(curCall.Requires, c)
+			curCall.Never = true
 		case "ensures":
 			if cur != nil {
 				curCall, curLoop = nil, nil
